@@ -121,6 +121,10 @@ func generalPlan(tier string, faults bool) []PlanItem {
 		f3 := scnFailoverDel("failover-del3-K1", K1, "A", "B", "C")
 		items = append(items, PlanItem{splitReplies(f3, 2*f3.H+53*ms-10*ms, 2*f3.H+53*ms+120*ms), d})
 	}
+	// the periodic token validation runs just ahead of the heartbeat (ValidationInterval a
+	// little below 2H): its read is applied before the refresh and answered after it, twice
+	// in a row (two reply-latency deviations)
+	items = append(items, PlanItem{scnValidationAheadOfHeartbeat("lone-leader-validation-ahead-of-heartbeat"), d + 1})
 	// decorated variants: the application's callbacks take time; every instance runs a
 	// health checker whose checks take 50 ms and succeed; takeover enabled at equal priority
 	items = append(items,
@@ -200,7 +204,9 @@ func init() {
 	props["C08"] = &propDef{Level: "exploration", Rule: ruleExpl + "a promotion callback ran", Assume: base,
 		Plan: func(t string) []PlanItem { return append(generalPlan(t, true), finePlan("C08", t)...) }}
 	props["C09"] = &propDef{Level: "exploration", Rule: ruleExpl + "a stop call returned", Assume: base,
-		Plan: func(t string) []PlanItem { return append(append(generalPlan(t, false), connStopPlan(t)...), finePlan("C09", t)...) }}
+		Plan: func(t string) []PlanItem {
+			return append(append(generalPlan(t, false), connStopPlan(t)...), finePlan("C09", t)...)
+		}}
 	props["C18"] = &propDef{Level: "exploration", Rule: ruleExpl + "a Status() snapshot was taken", Assume: base,
 		Plan: func(t string) []PlanItem { return append(generalPlan(t, true), finePlan("C18", t)...) }}
 	props["C19"] = &propDef{Level: "exploration", Rule: ruleExpl + "a promotion callback received a context", Assume: base,
@@ -323,6 +329,23 @@ func scnZombieRestart(name string) *Scenario {
 	s.AllowDup = false
 	s.DevFrom = 2 * s.H
 	s.MaxSteps = 3000
+	return s
+}
+
+// lone-leader-validation-ahead-of-heartbeat: A alone, H = 200 ms, ValidationInterval =
+// 390 ms (it has to be >= H): every validation read is issued 10 ms, 20 ms, ... before a
+// refresh. Replies may lag the application of an operation by up to H/2, so the read can be
+// answered after the refresh it was applied in front of.
+func scnValidationAheadOfHeartbeat(name string) *Scenario {
+	s := K1(&Scenario{Name: name})
+	s.Validation = 390*ms + 7*us
+	s.Insts = insts("A")
+	s.Script = starts("A")
+	s.Horizon = 6*s.H + 50*ms
+	s = s.faultFree()
+	s.SplitApply = true
+	s.RandMenu = nil
+	s.DevFrom, s.DevUntil = 380*ms, 4*s.H+50*ms
 	return s
 }
 
